@@ -159,6 +159,21 @@ def check_pair(case, sub="pairs"):
     r0 = r[0] if isinstance(r, tuple) else r
     if bool(r0) != truth:
         raise Violation(sub, "false-yes" if r0 else "false-no", "Graph.lc_equivalent", icls, "answer %s" % (r0,))
+    if n <= 6 and m1 and not case.get("blocks"):
+        # the same Graph object after an in-place edit of its networkx graph (one edge removed): asked again
+        e_ = rg.edges_from_mask(n, m1)[case.get("seed", 0) % len(rg.edges_from_mask(n, m1))]
+        Gx, Gy = Graph(rg.to_nx(n, m1)), Graph(rg.to_nx(n, m2))  # objects of their own (Graph keeps the networkx graph it is given)
+        guarded(sub, icls + ":edited_in_place", Gx.lc_equivalent, Gy)
+        nodes_ = list(Gx.data.nodes)
+        Gx.data.remove_edge(nodes_[e_[0]], nodes_[e_[1]])
+        m1b = m1 ^ (1 << rg.pairs(n).index(e_))
+        truth_b = rg.lc_equivalent(n, m1b, m2)
+        rb = guarded(sub, icls + ":edited_in_place", Gx.lc_equivalent, Gy)
+        rb0 = rb[0] if isinstance(rb, tuple) else rb
+        if bool(rb0) != truth_b:
+            raise Violation(sub, "false-yes" if rb0 else "false-no", "Graph.lc_equivalent", icls + ":edited_in_place",
+                            "after removing an edge of the same Graph object: answer %s, orbit table says %s" % (rb0, truth_b))
+        cl.append("graph_object_edited_then_asked_again")
     # random mode: sound, possibly incomplete
     ansr, solr = guarded(sub, icls, lc.is_lc_equivalent, a1.copy(), a2.copy(), mode="random", seed=case.get("seed", 0))
     if ansr and not truth:
